@@ -68,7 +68,7 @@ impl Part for WirePart {
         "2..5 concurrent scripted clients × 1..3 transactions each (autocommit, multi-statement, BEGIN..COMMIT/ROLLBACK with failing statement, extended batches with portal suspension, COPY IN/OUT/FAIL, COPY inside a block) against pool_size 1..3, transaction/session mode, statement cache 0/1/8, worker_threads 1/2/4, optional replica; server-side reply delays and client pre-delays create overlap. Non-trivial = two clients' exchanges overlapped in time AND one backend connection served >= 2 clients".into()
     }
     fn cases(&self, tier: Tier) -> u64 {
-        tier.pick(400, 12_000)
+        tier.pick(1_600, 24_000)
     }
     fn strategy(&self, _tier: Tier) -> BoxedStrategy<Case> {
         case_strategy()
